@@ -2,6 +2,11 @@
    when the model was last validated against the code). Compared with the regenerated VGen.SkelC01 in VProps/PinC01.lean. -/
 namespace VPins.C01
 
+def eventversion_RoomVersionImpl_CheckCanonicalJSON : List String := [
+  "func func(eventJSON []byte) error",
+  "return v.canonicalJSONCheck(eventJSON)"
+]
+
 def json_EventJSONs_TrustedEvents : List String := [
   "func func(roomVersion RoomVersion, redacted bool) []PDU",
   "verImpl, err := GetRoomVersion(roomVersion)",
@@ -243,6 +248,6 @@ def json__verifyEnforcedCanonicalJSON : List String := [
   "return nil"
 ]
 
-def functions : List String := ["json.go:EventJSONs.TrustedEvents", "json.go:EventJSONs.UntrustedEvents", "json.go:.CanonicalJSON", "json.go:.CanonicalJSONAssumeValid", "json.go:.CompactJSON", "json.go:.EnforcedCanonicalJSON", "json.go:.NewEventJSONsFromEvents", "json.go:.SortJSON", "json.go:.compactUnicodeEscape", "json.go:.isNegativeZeroLiteral", "json.go:.noVerifyCanonicalJSON", "json.go:.readHexDigits", "json.go:.sortJSONArray", "json.go:.sortJSONObject", "json.go:.sortJSONValue", "json.go:.verifyEnforcedCanonicalJSON"]
+def functions : List String := ["eventversion.go:RoomVersionImpl.CheckCanonicalJSON", "json.go:EventJSONs.TrustedEvents", "json.go:EventJSONs.UntrustedEvents", "json.go:.CanonicalJSON", "json.go:.CanonicalJSONAssumeValid", "json.go:.CompactJSON", "json.go:.EnforcedCanonicalJSON", "json.go:.NewEventJSONsFromEvents", "json.go:.SortJSON", "json.go:.compactUnicodeEscape", "json.go:.isNegativeZeroLiteral", "json.go:.noVerifyCanonicalJSON", "json.go:.readHexDigits", "json.go:.sortJSONArray", "json.go:.sortJSONObject", "json.go:.sortJSONValue", "json.go:.verifyEnforcedCanonicalJSON"]
 
 end VPins.C01
